@@ -71,6 +71,32 @@ def mutations(path, ops=None):
             for a, b in ((' + 1', ' + 2'), (' - 1', ' - 0'), ('+= 1', '+= 2')):
                 if a in l.split('//')[0]:
                     yield i, a.strip() + '->' + b.strip(), l.replace(a, b, 1)
+    if ops is not None and 'reinit' in ops:
+        # a clone of a shared object replaced by a fresh object built the same way (`x.clone()` -> `Arc::new(..)` as in `let x = Arc::new(..)`):
+        # the two parties of a hand-shake no longer share it
+        inits = {}
+        for i, l in code:
+            m = re.match(r'^\s*let\s+(?:mut\s+)?([a-z_][a-z_0-9]*)\s*(?::[^=]+)?=\s*((?:Arc|Mutex|Condvar|VecDeque|Vec)::new\(.*\));\s*$', l.split('//')[0].rstrip())
+            if m and m.group(2).count('(') == m.group(2).count(')'):
+                inits[m.group(1)] = (i, m.group(2))
+        for i, l in code:
+            c = l.split('//')[0]
+            for name, (di, init) in inits.items():
+                if i <= di or i - di > 120:
+                    continue
+                for pat in (r'\b%s\.clone\(\)' % name, r'Arc::clone\(&%s\)' % name, r'Arc::downgrade\(&%s\)' % name):
+                    m = re.search(pat, c)
+                    if m:
+                        rep = init if 'downgrade' not in pat else 'Arc::downgrade(&%s)' % init
+                        yield i, 'reinit:%s' % name, l[:m.start()] + rep + l[m.end():]
+    if ops is not None and 'itertrunc' in ops:
+        # an iteration that silently covers less than everything
+        for i, l in code:
+            c = l.split('//')[0]
+            for m in re.finditer(r'\.(iter|iter_mut|into_iter|drain\(\.\.\))\(?\)?', c):
+                end = m.end()
+                for extra in ('.skip(1)', '.take(1)', '.rev()'):
+                    yield i, 'itertrunc:%s@%d' % (extra, m.start()), l[:end] + extra + l[end:]
     if ops is not None and 'guard' in ops:
         # a call statement made conditional on something no analysis can evaluate: separates rules that say "X happens only here"
         # (dominance) from rules that say "X always happens here" (must-pass-through)
